@@ -5,8 +5,16 @@ from . import parts
 
 def run(tier):
     ck = common.Check('C07', tier)
-    parts.run_parts(ck, tier, witness_parts=('c07_select',), ir_parts=('ir_allocflow',))
+    res = parts.run_parts(ck, tier, witness_parts=('c07_select',), ir_parts=('ir_allocflow',))
+    r = res.get('ir_allocflow', [])
+    ck.floor('assignment / swap mechanisms walked (IR)', sum(x['res']['functions'] for x in r), 100 if tier == 'quick' else 1000)
+    # R07.5 reports nothing on a correct tree; what it depends on must at least be recognised: the probe
+    # allocator's select_on_container_copy_construction is reached by the copy constructors
+    ck.floor('functions reaching select_on_container_copy_construction (recognition of the primitive)',
+             sum(x['res'].get('soccc_functions', 0) for x in r), 10 if tier == 'quick' else 100)
     ck.finish(
+        'R07.5 (IR): the allocator an assignment installs is never the result of select_on_container_copy_construction (that is for '
+        'copy construction only). '
         'R07.1/R07.4 (type level): for all 16 combinations of the propagation traits and is_always_equal (plus std::allocator) '
         'and N in {0,2}, trap allocators whose assignment / swap / == / select_on_container_copy_construction bodies are '
         'ill-formed when instantiated show which overload of maybe_copy/maybe_move/maybe_swap, copy_assign/move_assign/swap '
